@@ -7,7 +7,7 @@ Driver handlers for property C15.
 * `c15.spec`  — "no path with two different digests" on the implementation's write log
 -/
 namespace Pydjinni.Drv.C15
-open Lean Pydjinni.Gen Pydjinni.Sys Pydjinni.Drv.SysJson
+open Lean Pydjinni.GenC Pydjinni.SysC Pydjinni.Drv.SysJson
 
 def names (req : Json) : Except String Json := do
   let gens ← req.getObjVal? "gens" >>= decodeGens
